@@ -179,6 +179,13 @@ func main() {
 		writeSites(gs, os.Getenv("VERIF_SNAPSHOT_GOSTMTS"), "Carapace.Props.C09", "expectedGoStmts",
 			"/- The functions of the library that start goroutines, create channels or select (file, function, what they contain; digest of\n   the function body) that the review in DESIGN.md 13.5 was made for.  Snapshot written by `VERIF_SNAPSHOT_GOSTMTS=<this file> extract`;\n   compared with the inventory regenerated from /repo on every run by `C09_goroutines_covered`. -/\n")
 	}
+	// ---- C08: inventory of process-wide effects
+	ge := extractGlobalEffects(repo)
+	writeSites(ge, filepath.Join(out, "GlobalEffects.lean"), "Carapace.Gen", "globalEffects", "-- GENERATED by /verif/extract from /repo on every run; do not edit.\n")
+	if os.Getenv("VERIF_SNAPSHOT_EFFECTS") != "" {
+		writeSites(ge, os.Getenv("VERIF_SNAPSHOT_EFFECTS"), "Carapace.Props.C08", "expectedGlobalEffects",
+			"/- The statements of the library that change the process (os.Setenv / Unsetenv / Clearenv / Chdir) or write a package-level variable\n   (file, function, what; digest of the statement) that the review in DESIGN.md 13.5 was made for.  Snapshot written by\n   `VERIF_SNAPSHOT_EFFECTS=<this file> extract`; compared with the inventory regenerated from /repo on every run by `C08_global_effects_covered`. -/\n")
+	}
 	js, _ := json.MarshalIndent(fc, "", " ")
 	os.MkdirAll("/verif/gen", 0o755)
 	genDir := filepath.Join(filepath.Dir(filepath.Dir(filepath.Dir(out))), "gen")
